@@ -19,25 +19,26 @@ Proof.
 Qed.
 
 Section Cheat.
+Variable ep : N.
 Variable lam : fev -> N.
 Variable vals : list (N * N).
 Hypothesis Hvals : vals_ok vals.
 Notation nv := (length vals).
 
-Lemma cheaters_sim st es T Dr R a : Core lam vals st es T Dr R -> In a T ->
+Lemma cheaters_sim st es T Dr R a : Core ep lam vals st es T Dr R -> In a T ->
   Abft.cheaters_of st (nd_id a) = ElectionSpec.cheaters_of vals T (nd_id a).
 Proof.
-  intros C Ha. pose proof (Core_wfT _ _ _ _ _ _ _ C) as W.
-  destruct (node_evt lam vals st es T Dr R a C Ha) as [ea Ea].
-  pose proof (co_vinv _ _ _ _ _ _ _ C) as I. rewrite <- (co_vals _ _ _ _ _ _ _ C) in I.
+  intros C Ha. pose proof (Core_wfT _ _ _ _ _ _ _ _ C) as W.
+  destruct (node_evt ep lam vals st es T Dr R a C Ha) as [ea Ea].
+  pose proof (co_vinv _ _ _ _ _ _ _ _ C) as I. rewrite <- (co_vals _ _ _ _ _ _ _ _ C) in I.
   rewrite (cheaters_graph st (nd_id a) ea I Ea). unfold visible_forkers.
-  rewrite (co_vals _ _ _ _ _ _ _ C), (co_evs _ _ _ _ _ _ _ C).
+  rewrite (co_vals _ _ _ _ _ _ _ _ C), (co_evs _ _ _ _ _ _ _ _ C).
   unfold ElectionSpec.cheaters_of. rewrite (wf_lookup vals T W a Ha).
   rewrite (canon_order_canonical vals (proj1 Hvals)), v_ids_vid.
   rewrite (filter_combine_map (vid vals)). unfold vid.
   f_equal. apply filter_ext_in. intros v Hv. apply in_seq in Hv.
   apply eq_true_iff_eq. rewrite sees_fork_anc. symmetry.
-  apply (sf_SeesFork vals T Dr a v (co_wf _ _ _ _ _ _ _ C) Ha).
+  apply (sf_SeesFork vals T Dr a v (co_wf _ _ _ _ _ _ _ _ C) Ha).
 Qed.
 
 (* the reference's cheater list of an event does not change when the table grows *)
